@@ -221,3 +221,27 @@ def chunked(seq, n):
         if not block:
             return
         yield block
+
+
+def in_fresh_process(fn, arg):
+    """run fn(arg) -> Stats in a forked child so that module-level state of the code under test starts as it is in this process now"""
+    import pickle
+    r, w = os.pipe()
+    pid = os.fork()
+    if pid == 0:
+        os.close(r)
+        try:
+            data = pickle.dumps(('ok', fn(arg)))
+        except BaseException as e:
+            data = pickle.dumps(('err', repr(e) + traceback.format_exc()))
+        with os.fdopen(w, 'wb') as f:
+            f.write(data)
+        os._exit(0)
+    os.close(w)
+    with os.fdopen(r, 'rb') as f:
+        data = f.read()
+    os.waitpid(pid, 0)
+    kind, val = pickle.loads(data)
+    if kind == 'err':
+        raise RuntimeError('child failed: ' + val)
+    return val
